@@ -63,4 +63,70 @@ end
 
 def jsonTypeDoc (d : Doc) : Doc := jsonTypeKV d
 
+/-! ## reading a time back (ImportCollection restores `_expiresAt`) -/
+
+/-- (year, month, day) → days since 1970-01-01 (Hinnant's algorithm, inverse of `civilFromDays`) -/
+def daysFromCivil (y0 : Int) (m d : Nat) : Int :=
+  let y := if m ≤ 2 then y0 - 1 else y0
+  let era := (if y ≥ 0 then y else y - 399) / 400
+  let yoe := (y - era * 400).toNat
+  let mp := if m > 2 then m - 3 else m + 9
+  let doy := (153 * mp + 2) / 5 + d - 1
+  let doe := yoe * 365 + yoe / 4 - yoe / 100 + doy
+  era * 146097 + (doe : Int) - 719468
+
+def isDigit (b : UInt8) : Bool := 0x30 ≤ b && b ≤ 0x39
+
+/-- the value of a non-empty all-digit byte string -/
+def natOfDigits (l : List UInt8) : Option Nat :=
+  if l.isEmpty || !l.all isDigit then none else some (l.foldl (fun acc (b : UInt8) => acc * 10 + (b.toNat - 48)) 0)
+
+/-- `time.Parse(time.RFC3339Nano, s)` on the texts `MarshalJSON` writes:
+    `YYYY-MM-DDTHH:MM:SS[.f…]` followed by `Z` or `±HH:MM`; result (UnixNano, offset seconds) -/
+def parseRfc3339 (s : List UInt8) : Option (Int × Int) :=
+  if s.length < 20 then none else
+  let sep (i : Nat) (c : UInt8) : Bool := s[i]? == some c
+  if !(sep 4 0x2D && sep 7 0x2D && sep 10 0x54 && sep 13 0x3A && sep 16 0x3A) then none else
+  match natOfDigits (s.take 4), natOfDigits ((s.drop 5).take 2), natOfDigits ((s.drop 8).take 2),
+        natOfDigits ((s.drop 11).take 2), natOfDigits ((s.drop 14).take 2), natOfDigits ((s.drop 17).take 2) with
+  | some y, some mo, some d, some h, some mi, some sec =>
+    if mo < 1 || mo > 12 || d < 1 || d > 31 || h > 23 || mi > 59 || sec > 59 then none else
+    let rest := s.drop 19
+    -- optional fraction
+    let (fracDigits, rest) := match rest with
+      | 0x2E :: r => (r.takeWhile isDigit, r.dropWhile isDigit)
+      | r => ([], r)
+    if (rest.length != s.length - 19) && fracDigits.isEmpty then none else
+    if fracDigits.length > 9 then none else
+    let nano : Nat := (fracDigits ++ List.replicate (9 - fracDigits.length) (0x30 : UInt8)).foldl (fun acc (b : UInt8) => acc * 10 + (b.toNat - 48)) 0
+    let off : Option Int := match rest with
+      | [0x5A] => some 0
+      | [sg, a, b, 0x3A, c, e] =>
+        if sg != 0x2B && sg != 0x2D then none else
+        match natOfDigits [a, b], natOfDigits [c, e] with
+        | some zh, some zm =>
+          if zh > 23 || zm > 59 then none else
+          let v : Int := (zh * 3600 + zm * 60 : Nat)
+          some (if sg == 0x2D then -v else v)
+        | _, _ => none
+      | _ => none
+    match off with
+    | none => none
+    | some o =>
+      let loc : Int := daysFromCivil y mo d * 86400 + (h * 3600 + mi * 60 + sec : Nat)
+      some ((loc - o) * 1000000000 + (nano : Int), o)
+  | _, _, _, _, _, _ => none
+
+def expiresAtKey : Bytes := [0x5F, 0x65, 0x78, 0x70, 0x69, 0x72, 0x65, 0x73, 0x41, 0x74]  -- "_expiresAt"
+
+/-- what `ImportCollection` does to each decoded object before building the document: the RFC 3339
+    text a top-level `_expiresAt` was exported as becomes the expiration time again -/
+def restoreExpiresAt (d : Doc) : Doc :=
+  match lookupKey expiresAtKey d with
+  | some (.str s) =>
+    match parseRfc3339 s with
+    | some (ns, off) => insertKey expiresAtKey (.time ns off) d
+    | none => d
+  | _ => d
+
 end CV
